@@ -257,4 +257,20 @@ def extended_scenarios():
                         compile(f.content, f.name, "exec")
                     except SyntaxError as e:
                         failures.append(dict(label, what="emitted module does not compile", file=f.name, error=str(e)[:120]))
+    # internal mode: the unlisted polling method is emitted as `_get`, and that is the method the kept extended-operation rpcs poll through
+    import re
+    cases += 1
+    yaml = {"type": "google.api.Service", "config_version": 3, "name": "net.example.com", "publishing": {"library_settings": [
+        {"version": "acme.net.v1", "python_settings": {"common": {"selective_gapic_generation": {"methods": [P + "Networks.Insert"], "generate_omitted_as_internal": True}}}}]}}
+    try:
+        api, res = G.generate(ext_files(True), "autogen-snippets=false,transport=rest", service_yaml=yaml, extra_dep_modules=(X,))
+        src = next(f.content for f in res.file if f.name.endswith("services/networks/client.py"))
+        ops = next(f.content for f in res.file if f.name.endswith("services/global_operations/client.py"))
+        polled = set(re.findall(r"functools\.partial\(operation_service\.(\w+)", src))
+        defined = set(re.findall(r"^    def (\w+)\(", ops, re.M))
+        if not polled or not polled <= defined:
+            failures.append({"internal": True, "what": "the kept extended-operation rpc polls through a method the operation service's client does not define",
+                             "polled": sorted(polled), "defined_polling_candidates": sorted(d for d in defined if "get" in d)})
+    except Exception as e:     # noqa
+        failures.append({"internal": True, "what": "generation failed", "error": repr(e)[:300]})
     return {"cases": cases, "failures": failures}
